@@ -200,6 +200,26 @@ class C04(C02):
                 lines = ["pre", gen.U_OPEN] + list(body)[:k] + [gen.U_CLOSE, "post"]
                 yield self.mk("\n".join(lines) + "\n", "<", ">", proto.DEFAULT_CFG, "unwrap-too-short")
         yield self.mk("a " + gen.U_OPEN + " b " + gen.U_CLOSE + " c\n", "<", ">", proto.DEFAULT_CFG, "unwrap-one-line")
+        # sources that stop inside the last delimiter (a truncated file): the cut tag is text, so an element whose
+        # closing tag is cut is not an element and nothing of it may be touched
+        multi = [d for d in gen.DELIMS if len(d[1]) > 1 or len(d[0]) > 1] + [("<!--", "-->"), ("/*", "*/"), ("{{", "}}"), ("<%", "%>")]
+        for i in range(quick(tier, 240, 3000)):
+            ds, de = multi[i % len(multi)]
+            kind = rng.choice(["rm", "tl"])
+            cond = "name='a'" if kind == "rm" else "to='%s'" % gen.READY_T
+            lay = i % 3
+            # tags padded with blanks inside the delimiters: a cut end delimiter is then a separate word of the tag
+            if (i // len(multi)) % 2 == 1:
+                ds, de = ds + " ", " " + de
+            if lay == 0:
+                base = "a\n%s%s %s%s\nx\n%s/%s%s" % (ds, kind, cond, de, ds, kind, de)
+            elif lay == 1:
+                base = "a %s%s %s%sx%s/%s%s" % (ds, kind, cond, de, ds, kind, de)
+            else:
+                base = "a\n  %s%s %s unwrap-block%s\n  {\n    x\n  }\n  %s/%s%s" % (ds, kind, cond, de, ds, kind, de)
+            ds, de = ds.strip(" "), de.strip(" ")
+            for cut in range(1, len(de) + len(kind) + 3):
+                yield self.mk(base[:-cut], ds, de, proto.DEFAULT_CFG, "truncated")
         # elements whose condition attribute is missing, valueless, empty or unparsable, under configurations that
         # make a default value meaningful (the empty string as a target, an empty / odd offset, now far in the future)
         bodies = ["rm", "rm name", "rm nam='a'", "rm name=''", "rm name=a", "rm  name", "rm c='name' name", "rm unwrap-block",
@@ -367,7 +387,7 @@ class C06(Base):
         n = quick(tier, 6000, 150000)
         safe_names = [x for x in gen.NAME_POOL if "'" not in x and ">" not in x and "<" not in x]
         # names containing one kind of quote character: the value is opaque, membership is whole-string
-        safe_names = safe_names + ["f1'b", 'f1"b', "f1", "a' skip x='"]
+        safe_names = safe_names + ["f1'b", 'f1"b', "f1", "a' skip x='", "feature1 ", " feature1", "a ", "\ta", " ", "a\n"]
         for i in range(n):
             targets = tuple(sorted(set(rng.choice(safe_names) for _ in range(rng.choice([0, 1, 1, 2, 3])))))
             tl, rm = rng.choice([("tl", "rm"), ("tl", "rm"), ("rm", "rm"), ("time-limited", "removal-marker"), ("é", "印")])
